@@ -26,7 +26,7 @@ REAL step programs (`op` computes the kernel's value from the values read; tied 
 Import-free (only `Mahotas.Model.*`).
 -/
 import Mahotas.Model.C12
-import Mahotas.Model.C08
+import Mahotas.Model.C08Base
 import Mahotas.Model.C01
 import Mahotas.Model.C06
 import Mahotas.Model.C03
